@@ -6,25 +6,21 @@ The inner Gemini protocol (and with it every handler call and every application 
 after a TCP read completed the handshake (`hsFinal`); anything the engine rejects before that closes
 the TCP connection and the state stays without an inner protocol whatever happens afterwards. -/
 
-namespace Srv
+namespace Misc.PumpTls
+open Srv
 
-def Item.isFinal : Item → Bool
+def isFinal : Item → Bool
   | .hsFinal => true
   | _ => false
 
-def Item.isHs : Item → Bool
+def isHs : Item → Bool
   | .hs => true
   | _ => false
 
 /-- an event that cannot complete the handshake -/
-def PEv.noFinal : PEv → Prop
-  | .read items => ∀ i ∈ items, i.isFinal = false
+def noFinal : PEv → Prop
+  | .read items => ∀ i ∈ items, isFinal i = false
   | _ => True
-
-end Srv
-
-namespace Srv.PumpTls
-open Srv
 
 /-- handler + upload-handler invocations so far -/
 def handlerCalls (p : PSt) : Nat :=
@@ -43,47 +39,47 @@ theorem pre_init : Pre ({} : PSt) := ⟨rfl, rfl⟩
 theorem pre_plainOut (p : PSt) (h : Pre p) : plainOut p = [] ∧ handlerCalls p = 0 := by
   simp [plainOut, handlerCalls, h.1]
 
-theorem go_noFinal (cfg : Cfg) (items : List Item) : ∀ p : PSt, Pre p → (∀ i ∈ items, i.isFinal = false) →
+theorem go_noFinal (cfg : Cfg) (items : List Item) : ∀ p : PSt, Pre p → (∀ i ∈ items, isFinal i = false) →
     Pre (pumpRead.go cfg p items) := by
   induction items with
   | nil => intro p hp _; simpa [pumpRead.go] using hp
   | cons x xs ih =>
     intro p hp hx
     have hx0 := hx x (by simp)
-    have hxs : ∀ i ∈ xs, i.isFinal = false := fun i hi => hx i (by simp [hi])
+    have hxs : ∀ i ∈ xs, isFinal i = false := fun i hi => hx i (by simp [hi])
     cases x with
     | hs => simpa [pumpRead.go] using ih p hp hxs
-    | hsFinal => simp [Item.isFinal] at hx0
+    | hsFinal => simp [isFinal] at hx0
     | app d => simpa [pumpRead.go, Pre] using hp
     | closeNotify => simpa [pumpRead.go, Pre] using hp
     | bad => simpa [pumpRead.go, Pre] using hp
 
 /-- handshake records, then something that is not a handshake record: closed, still no inner protocol -/
 theorem go_reject (cfg : Cfg) (pre : List Item) (x : Item) (rest : List Item)
-    (hx : x.isHs = false ∧ x.isFinal = false) :
-    ∀ p : PSt, Pre p → (∀ i ∈ pre, i.isHs = true) →
+    (hx : isHs x = false ∧ isFinal x = false) :
+    ∀ p : PSt, Pre p → (∀ i ∈ pre, isHs i = true) →
       Pre (pumpRead.go cfg p (pre ++ x :: rest)) ∧ (pumpRead.go cfg p (pre ++ x :: rest)).tcpClosed = true := by
   induction pre with
   | nil =>
     intro p hp _
     cases x with
-    | hs => simp [Item.isHs] at hx
-    | hsFinal => simp [Item.isFinal] at hx
+    | hs => simp [isHs] at hx
+    | hsFinal => simp [isFinal] at hx
     | app d => simpa [pumpRead.go, Pre] using hp
     | closeNotify => simpa [pumpRead.go, Pre] using hp
     | bad => simpa [pumpRead.go, Pre] using hp
   | cons y ys ih =>
     intro p hp hpre
     have hy := hpre y (by simp)
-    have hys : ∀ i ∈ ys, i.isHs = true := fun i hi => hpre i (by simp [hi])
+    have hys : ∀ i ∈ ys, isHs i = true := fun i hi => hpre i (by simp [hi])
     cases y with
     | hs => simpa [pumpRead.go] using ih p hp hys
-    | hsFinal => simp [Item.isHs] at hy
-    | app d => simp [Item.isHs] at hy
-    | closeNotify => simp [Item.isHs] at hy
-    | bad => simp [Item.isHs] at hy
+    | hsFinal => simp [isHs] at hy
+    | app d => simp [isHs] at hy
+    | closeNotify => simp [isHs] at hy
+    | bad => simp [isHs] at hy
 
-theorem step_pre (cfg : Cfg) (p : PSt) (e : PEv) (hp : Pre p) (he : e.noFinal) : Pre (pumpStep cfg p e) := by
+theorem step_pre (cfg : Cfg) (p : PSt) (e : PEv) (hp : Pre p) (he : noFinal e) : Pre (pumpStep cfg p e) := by
   cases e with
   | read items =>
     simp only [pumpStep, pumpRead]
@@ -107,7 +103,7 @@ theorem step_pre (cfg : Cfg) (p : PSt) (e : PEv) (hp : Pre p) (he : e.noFinal) :
     simp only [pumpStep, h1, Option.map_none, Pre]
     exact ⟨trivial, h2⟩
 
-theorem run_pre (cfg : Cfg) (evs : List PEv) : ∀ p : PSt, Pre p → (∀ e ∈ evs, e.noFinal) →
+theorem run_pre (cfg : Cfg) (evs : List PEv) : ∀ p : PSt, Pre p → (∀ e ∈ evs, noFinal e) →
     Pre (evs.foldl (pumpStep cfg) p) := by
   induction evs with
   | nil => intro p hp _; exact hp
@@ -144,7 +140,7 @@ theorem run_dead (cfg : Cfg) (evs : List PEv) : ∀ p : PSt, Dead p → Dead (ev
 
 /-- a read that carries a non-handshake item before the handshake completed kills the connection -/
 theorem step_reject (cfg : Cfg) (p : PSt) (hp : Pre p) (pre : List Item) (x : Item) (rest : List Item)
-    (hpre : ∀ i ∈ pre, i.isHs = true) (hx : x.isHs = false ∧ x.isFinal = false) :
+    (hpre : ∀ i ∈ pre, isHs i = true) (hx : isHs x = false ∧ isFinal x = false) :
     Dead (pumpStep cfg p (.read (pre ++ x :: rest))) := by
   simp only [pumpStep, pumpRead]
   by_cases h1 : p.lost = true ∨ p.tcpClosed = true
@@ -154,4 +150,4 @@ theorem step_reject (cfg : Cfg) (p : PSt) (hp : Pre p) (pre : List Item) (x : It
     rw [if_neg h2]
     have := go_reject cfg pre x rest hx p hp hpre
     exact ⟨this.1, Or.inl this.2⟩
-end Srv.PumpTls
+end Misc.PumpTls
